@@ -801,7 +801,8 @@ impl Apply for Param {
 
                 match defined {
                     Some(x) => Ok(Param::Set(Expression::UtxoSet(x))),
-                    None => Ok(Self::ExpectInput(name, query)),
+                    // queries can refer to other inputs
+                    None => Ok(Self::ExpectInput(name, query.apply_inputs(args)?)),
                 }
             }
             Param::Set(x) => Ok(Param::Set(x.apply_inputs(args)?)),
@@ -844,7 +845,12 @@ impl Apply for Param {
 
     fn queries(&self) -> BTreeMap<String, InputQuery> {
         match self {
-            Param::ExpectInput(name, query) => BTreeMap::from([(name.clone(), query.clone())]),
+            Param::ExpectInput(name, query) => {
+                // queries can refer to other inputs
+                let mut all = query.queries();
+                all.insert(name.clone(), query.clone());
+                all
+            }
             Param::Set(x) => x.queries(),
             _ => BTreeMap::new(),
         }
